@@ -239,10 +239,12 @@ func (enc *Encoder) marshalFieldValue(s capnp.Struct, f schema.Field) error {
 			return err
 		}
 		id := typ.StructType().TypeId()
-		if p.IsValid() {
-			return enc.marshalStruct(id, p.Struct())
+		if st := p.Struct(); st.IsValid() {
+			return enc.marshalStruct(id, st)
 		}
-		// Null pointer: write the field's default value.  For a recursive
+		// Null pointer, or a pointer that is not a struct pointer: write
+		// the field's default value, which is what the generated accessor
+		// returns (Ptr.StructDefault).  For a recursive
 		// type (a list node, a tree) the default of the field contains the
 		// same field again, without end: inside the default value of a
 		// type, a further null field of that type is written as ().
@@ -262,23 +264,19 @@ func (enc *Encoder) marshalFieldValue(s capnp.Struct, f schema.Field) error {
 		if err != nil {
 			return err
 		}
-		if !p.IsValid() {
-			b, _ := dv.Data()
-			enc.marshalText(b)
-			return nil
-		}
-		enc.marshalText(p.Data())
+		// Like the generated accessor: the default also stands in for a
+		// pointer that is not a byte list.
+		def, _ := dv.Data()
+		enc.marshalText(p.DataDefault(def))
 	case schema.Type_Which_text:
 		p, err := s.Ptr(uint16(f.Slot().Offset()))
 		if err != nil {
 			return err
 		}
-		if !p.IsValid() {
-			b, _ := dv.TextBytes()
-			enc.marshalText(b)
-			return nil
-		}
-		enc.marshalText(p.TextBytes())
+		// Like the generated accessor: the default also stands in for a
+		// pointer that is not a NUL-terminated byte list.
+		def, _ := dv.TextBytes()
+		enc.marshalText(p.TextBytesDefault(string(def)))
 	case schema.Type_Which_list:
 		elem, err := typ.List().ElementType()
 		if err != nil {
@@ -288,10 +286,14 @@ func (enc *Encoder) marshalFieldValue(s capnp.Struct, f schema.Field) error {
 		if err != nil {
 			return err
 		}
-		if !p.IsValid() {
+		l := p.List()
+		if !l.IsValid() {
+			// Null pointer or not a list pointer: the default, like the
+			// generated accessor (Ptr.ListDefault).
 			p, _ = dv.List()
+			l = p.List()
 		}
-		return enc.marshalList(elem, p.List())
+		return enc.marshalList(elem, l)
 	case schema.Type_Which_enum:
 		v := s.Uint16(capnp.DataOffset(f.Slot().Offset() * 2))
 		d := dv.Enum()
